@@ -24,7 +24,7 @@ Definition t (deps : list name) (allow : bool) : taskdef := TaskDef deps allow f
 Definition ex_defs (cont : bool) : defs :=
   [(0%nat, PDef 1 None false 0 cont 0 0 0 [(0%nat, t [] false); (1%nat, t [] false); (2%nat, t [0%nat] false)])].
 Definition run2 : list event :=
-  [EvSchedule 0 VNone 0; EvIterBegin 0; EvVisit 0 0; EvVisit 0 1; EvVisit 0 2; EvRunBegin 0 0; EvRunBegin 0 1; EvRunEnd 0 0 (OutFail 1)].
+  [EvSchedule 0 VNone 0; EvIterBegin 0; EvVisit 0 0; EvVisit 0 1; EvVisit 0 2; EvRunBegin 0 0; EvRunBegin 0 1; EvRunEnd 0 0 (OutFail 1); EvNotify 0 0].
 Example C08_ex_failfast :
   (fun j => (j_cancels j, map jt_errored (j_tasks j))) <$> get_job (exec (init (ex_defs false)) run2) 0 = Some (1%nat, [true; false; false]).
 Proof. vm_compute. done. Qed.
@@ -32,7 +32,7 @@ Example C08_ex_continue :
   (fun j => (j_cancels j, map jt_errored (j_tasks j))) <$> get_job (exec (init (ex_defs true)) run2) 0 = Some (0%nat, [true; false; false]).
 Proof. vm_compute. done. Qed.
 Example C08_ex_dependent_never_runs :
-  let s := exec (init (ex_defs true)) (run2 ++ [EvIterBegin 0; EvVisit 0 0; EvVisit 0 1; EvVisit 0 2; EvRunEnd 0 1 OutOk;
+  let s := exec (init (ex_defs true)) (run2 ++ [EvIterBegin 0; EvVisit 0 0; EvVisit 0 1; EvVisit 0 2; EvRunEnd 0 1 OutOk; EvNotify 0 1;
                                                EvIterBegin 0; EvVisit 0 0; EvVisit 0 1; EvVisit 0 2; EvSchedReturn 0]) in
   (fun j => (j_completed j, j_canceled j, j_lasterr j, map jt_status (j_tasks j), map jt_start (j_tasks j)))
     <$> get_job s 0 = Some (true, false, Some EFail, [Error; Done; Waiting], [Some 0%Z; Some 0%Z; None]).
